@@ -36,8 +36,12 @@ func runCase(t *rapid.T, e node) {
 	src := e.src(false)
 	cbh.BlockEffects = rapid.IntRange(0, 2).Draw(t, "hangingSideEffects") == 0 // webhooks that never return
 	cbh.UseWebhooks = rapid.IntRange(0, 5).Draw(t, "stockWebhooks") == 0       // the stock webhook side effect against a loopback server
+	cbh.WebhookDrop = rapid.Bool().Draw(t, "webhookReceiverDropsConnection")
+	cbh.Decoy = rapid.IntRange(0, 2).Draw(t, "secondBreakerInProcess") == 0
 	d := cbh.New(t, src, FD, R, P, phase)
-	cbh.BlockEffects, cbh.UseWebhooks = false, false
+	cbh.Decoy = false
+	d.ImplicitOK = rapid.IntRange(0, 2).Draw(t, "implicit200") == 0
+	cbh.BlockEffects, cbh.UseWebhooks, cbh.WebhookDrop = false, false, false
 	defer d.Close()
 
 	var recs []rec                                  // completed since the last trip
@@ -290,4 +294,25 @@ func FuzzC18_Expr(f *testing.F) {
 	f.Add([]byte("\x01\x02\x03\x04\x05\x06\x07\x08\x09\x0a\x0b\x0c\x0d\x0e\x0f\x10"))
 	f.Add([]byte("NetworkErrorRatio() > 0.5 && LatencyAtQuantileMS(50.0) > 100"))
 	f.Fuzz(rapid.MakeFuzz(func(t *rapid.T) { runCase(t, genExpr(t, 3)) }))
+}
+
+// TestC18_Regression replays the shrunk history of a repaired defect (D18): responses sent as
+// "103 Early Hints, then a body with the implicit 200" were recorded as status 103, so a
+// condition over the 2xx responses saw none of them.
+func TestC18_Regression(t *testing.T) {
+	d := cbh.New(t, "ResponseCodeRatio(500, 600, 200, 300) >= 0.2 && ResponseCodeRatio(200, 300, 0, 600) > 0.5", time.Second, time.Second, time.Millisecond, 0)
+	defer d.Close()
+	d.ImplicitOK = true
+	for i := 0; i < 4; i++ {
+		d.Start()
+		d.Finish(0, 200, 103)
+	}
+	d.Start()
+	d.Finish(0, 500)
+	d.Advance(cbh.Step(2))
+	d.Start()
+	d.Finish(0, 200, 103)
+	if st := d.State(); st != "tripped" {
+		t.Fatalf("five 2xx responses (each preceded by 103 Early Hints, status left implicit) and one 500: the condition holds (1/5 >= 0.2, 5/6 > 0.5) but the breaker is %s\n%s", st, d.History())
+	}
 }
